@@ -44,6 +44,11 @@ const PATTERNS: &[&str] = &[
     r"(x+x+)+y",
     r"(?i)(?=[a-z]*\d)[a-z\d]{4,}",
     r"(a{1,2}?)(?>b|bc)\b",
+    // \G with empty matches before the end of the text: the iterators must tell the VM
+    // "an empty match was skipped" per search, not per Regex
+    r"\G(?:(\w+)|,?)",
+    r"\G\d*",
+    r"(?:\G|;)(\w\w)?",
 ];
 
 const TEXTS: &[&str] = &[
@@ -199,7 +204,7 @@ struct ThreadResult {
     panics: Vec<String>,
 }
 
-fn worker(sh: &Shared, mode: usize, tid: usize, seed: u64, calls: u64, barrier: &Barrier, peak: &AtomicU64) -> ThreadResult {
+fn worker(sh: &Shared, mode: usize, tid: usize, seed: u64, calls: u64, barrier: &Barrier, peak: &AtomicU64, hot: &[usize]) -> ThreadResult {
     let mut r = ThreadResult::default();
     let mut rng = Rng(seed ^ (tid as u64 + 1).wrapping_mul(0xABCDEF));
     // mode 0: all share; 1: all clones; 2: odd threads clone
@@ -207,7 +212,7 @@ fn worker(sh: &Shared, mode: usize, tid: usize, seed: u64, calls: u64, barrier: 
     barrier.wait();
     for _ in 0..calls {
         // few patterns at a time so that threads really meet on the same Regex
-        let p = rng.below(sh.np);
+        let p = if hot.is_empty() { rng.below(sh.np) } else { hot[rng.below(hot.len())] };
         let t = rng.below(sh.nt);
         let api = rng.below(sh.napis);
         let re = match &own {
@@ -320,8 +325,17 @@ fn main() {
                 for tid in 0..n {
                     let (sh, barrier, tx, peak) = (sh.clone(), barrier.clone(), tx.clone(), peak.clone());
                     let rs = round_seed;
+                    // every other round all threads work on the same three patterns (always
+                    // including one of the last ones: tight limits and \G), so that they really
+                    // meet inside one Regex
+                    let hot: Vec<usize> = if rounds % 2 == 0 {
+                        let mut r = Rng(round_seed);
+                        vec![r.below(np), r.below(np), np - 1 - r.below(7.min(np))]
+                    } else {
+                        vec![]
+                    };
                     std::thread::spawn(move || {
-                        let r = worker(&sh, m, tid, rs, per_thread, &barrier, &peak);
+                        let r = worker(&sh, m, tid, rs, per_thread, &barrier, &peak, &hot);
                         let _ = tx.send(r);
                     });
                 }
@@ -351,6 +365,50 @@ fn main() {
             break;
         }
     }
+    // cold-start rounds: a freshly compiled Regex whose very first searches come from several
+    // threads at once (lazily initialised per-Regex state must not be observable half-built)
+    let mut cold_rounds = 0u64;
+    if mode != "miri" && !watchdog {
+        let n_cold = if mode == "tsan" { 150 } else { (target / 1500).clamp(300, 20_000) };
+        let mut rng = Rng(seed ^ 0xC01D);
+        for _ in 0..n_cold {
+            let p = rng.below(PATTERNS.len().min(np));
+            let Ok(fresh) = Regex::new(sh.pats[p]) else { continue };
+            let fresh = Arc::new(fresh);
+            let n = 2 + rng.below(5);
+            let barrier = Arc::new(Barrier::new(n));
+            let (tx, rx) = mpsc::channel();
+            for tid in 0..n {
+                let (fresh, barrier, tx, sh) = (fresh.clone(), barrier.clone(), tx.clone(), sh.clone());
+                let t = rng.below(nt);
+                let api = rng.below(APIS);
+                std::thread::spawn(move || {
+                    barrier.wait();
+                    let got = std::panic::catch_unwind(std::panic::AssertUnwindSafe(|| call(&fresh, sh.texts[t], api)));
+                    let idx = (p * sh.nt + t) * APIS + api;
+                    let bad = match got {
+                        Ok(s) if s == sh.table[idx] => None,
+                        Ok(s) => Some(format!("COLD START: pattern {:?} text {:?} api {} thread {}: got {:?}, single-threaded run gave {:?}", sh.pats[p], sh.texts[t], api, tid, s, sh.table[idx])),
+                        Err(_) => Some(format!("COLD START: pattern {:?} text {:?} api {} thread {} panicked", sh.pats[p], sh.texts[t], api, tid)),
+                    };
+                    let _ = tx.send(bad);
+                });
+            }
+            drop(tx);
+            for _ in 0..n {
+                match rx.recv_timeout(Duration::from_secs(120)) {
+                    Ok(Some(m)) => total.mismatches.push(m),
+                    Ok(None) => {}
+                    Err(_) => {
+                        watchdog = true;
+                        break;
+                    }
+                }
+                total.calls += 1;
+            }
+            cold_rounds += 1;
+        }
+    }
     let res = serde_json::json!({
         "mode": mode, "seed": seed, "calls": total.calls, "overlapped_calls": total.overlapped,
         "distinct_triples_compared_under_overlap": total.triples_overlapped.len(),
@@ -359,6 +417,7 @@ fn main() {
         "panics": total.panics.len(), "panic_examples": total.panics.iter().take(5).collect::<Vec<_>>(),
         "rounds": rounds, "thread_counts": thread_counts, "patterns": np, "texts": nt, "apis": ["captures", "find_iter", "is_match", "try_replacen(0, template)", "split"],
         "tight_limit_regexes": tight_info,
+        "cold_start_rounds": cold_rounds,
         "watchdog_fired": watchdog, "wall_s": t0.elapsed().as_secs_f64(),
         "sample": {"pattern": pats[np - 1], "text": texts[nt - 1], "single_threaded_captures": sh.table[((np - 1) * nt + (nt - 1)) * APIS]},
     });
